@@ -52,8 +52,8 @@ struct MiniCore
     static inline real_type g_next_step[N]{};
     static inline LocalSurfaceId g_next_surf[N]{};
     static inline Sense g_next_sense[N]{};
-    Real3 g_pos[N];
-    Real3 g_dir[N];
+    static inline Real3 g_pos[N]{};
+    static inline Real3 g_dir[N]{};
     static inline LocalVolumeId g_vol[N]{};
     static inline UniverseId g_universe[N]{};
     // materials / particles / physics / sim
